@@ -666,6 +666,29 @@ theorem C11_facts :
     Facts.missing = [] := by
   decide
 
+/-- `C11_refines`, `C11_size` and `C11_live_unharmed` restated for the model instantiated with
+the facts extracted from THIS tree (both stacks): the statement the correspondence check ties
+to the running code (`oracle_c11` runs exactly `run Facts.*.lruPutNilAbsentReturns (init
+Facts.*.lruDefaultCap c)`). -/
+theorem C11_code (c : Int) (ops : List Op) :
+    (let r := run Facts.tlcp.lruPutNilAbsentReturns (init Facts.tlcp.lruDefaultCap c) ops
+     let sp := LRUMap.run ({ cap := effCap 64 c, items := [] } : LRUMap.Map ObjId) (ops.map specOp)
+     abs r.1 = sp.1 ∧ outsAgree r.2 sp.2 ∧ r.1.q.length ≤ effCap 64 c ∧
+       (FreshPuts [] ops → ∀ o ∈ live r.1, o ∉ r.1.zeroed)) ∧
+    (let r := run Facts.dtlcp.lruPutNilAbsentReturns (init Facts.dtlcp.lruDefaultCap c) ops
+     let sp := LRUMap.run ({ cap := effCap 64 c, items := [] } : LRUMap.Map ObjId) (ops.map specOp)
+     abs r.1 = sp.1 ∧ outsAgree r.2 sp.2 ∧ r.1.q.length ≤ effCap 64 c ∧
+       (FreshPuts [] ops → ∀ o ∈ live r.1, o ∉ r.1.zeroed)) := by
+  have f1 : Facts.tlcp.lruPutNilAbsentReturns = true := by decide
+  have f2 : Facts.dtlcp.lruPutNilAbsentReturns = true := by decide
+  have f3 : Facts.tlcp.lruDefaultCap = 64 := by decide
+  have f4 : Facts.dtlcp.lruDefaultCap = 64 := by decide
+  rw [f1, f2, f3, f4]
+  have hr := C11_refines 64 (by decide) c ops
+  have hs := C11_size true 64 (by decide) c ops
+  have hl := C11_live_unharmed true 64 c ops
+  exact ⟨⟨hr.1, hr.2, hs, hl⟩, ⟨hr.1, hr.2, hs, hl⟩⟩
+
 /-! #### non-vacuity -/
 
 example : FreshPuts [] [.put "a" (some 1), .put "b" (some 2), .get "a", .put "c" (some 3), .put "a" none] := by
